@@ -970,7 +970,8 @@ def macroDefinition (name : String) : M Unit := do
 
 /-- `_detect_routine_start` -/
 def St.detectRoutineStart (st : St) : Bool :=
-  st.hasRoutine st.cur.str || st.cur.ty.isExecutable || st.cur.ty == .begin_ || st.cur.ty == .with_
+  (st.cur.ty == .name && st.hasRoutine st.cur.str) || st.cur.ty.isExecutable || st.cur.isMark "[" ||
+    st.cur.ty == .begin_ || st.cur.ty == .with_
 
 /-- `routine.add_param(name); add_variable(name); next_token()` -/
 def declParam (routine name : String) : M Unit := do
